@@ -2281,11 +2281,12 @@ func (e *CoreExtension) functionParent(args ...interface{}) (interface{}, error)
 		LogDebug("Blocks in context: %v", getMapKeys(ctx.blocks))
 		LogDebug("Parent blocks in context: %v", getMapKeys(ctx.parentBlocks))
 
-		// Check for parent content in the parentBlocks map
-		parentContent, ok := ctx.parentBlocks[blockName]
-		if !ok || len(parentContent) == 0 {
+		// The parent content is the next definition up the chain (it may be empty)
+		parentDepth := ctx.blockDepth + 1
+		if parentDepth >= len(ctx.currentChain) {
 			return "", fmt.Errorf("no parent block content found for block '%s'", blockName)
 		}
+		parentContent := ctx.currentChain[parentDepth]
 
 		// For the simplest possible solution, render the parent content directly
 		// This is the most direct way to avoid recursion issues
@@ -2301,8 +2302,12 @@ func (e *CoreExtension) functionParent(args ...interface{}) (interface{}, error)
 			cleanCtx.blocks[name] = content
 		}
 
-		// The key here is to NOT set currentBlock - this breaks the recursion chain
-		cleanCtx.currentBlock = nil
+		// The parent content is rendered one step further up the chain, so that a
+		// parent() call inside it reaches the definition above it
+		cleanCtx.blockChain = copyBlockChain(ctx.blockChain)
+		cleanCtx.currentBlock = ctx.currentBlock
+		cleanCtx.currentChain = ctx.currentChain
+		cleanCtx.blockDepth = parentDepth
 
 		// Render each node with the clean context
 		for _, node := range parentContent {
